@@ -22,7 +22,7 @@ type crashCfg struct {
 func init() {
 	cfgs := map[string]crashCfg{
 		"C01": {"mixed", 24, 110, "crash images (snapshot at an I/O boundary x which pending 8-byte pieces / directory operations / lengths reached disk, nested to depth 2) recovered and compared with the legal model states; non-trivial = distinct image content hash with a pending piece, pending directory operation, in-flight call or taken inside recovery", "nontrivial_images"},
-		"C02": {"chains", 30, 140, "crash images of chains crash->recover->append->crash; recovered state must equal one legal state exactly; non-trivial = distinct image whose tail file, before recovery, holds non-zero bytes beyond the point where a plain frame scan stops, or a torn (partial) subset of the in-flight batch", "c02_nontrivial"},
+		"C02": {"chains", 30, 140, "crash images of chains crash->recover->append->crash; recovered state must equal one legal state exactly; non-trivial = distinct image whose tail file, before recovery, holds non-zero bytes beyond the point where a plain frame scan stops, or a torn (partial) subset of the in-flight batch; plus directed two-crash chains (batch T0 torn with every subset of its sectors on disk, recovery, a shorter batch T1 for the same indexes torn with every combination of which pending write - recovery's zeroing, T1 - reached which sector)", "c02_nontrivial"},
 		"C03": {"seal", 22, 110, "crash images recovered, then a fixed continuation (appends forcing rotation, truncations, stable set/get, clean reopen, append) must succeed and match; non-trivial = distinct image taken in rotation, inside Open, during a truncation, or with the tail file missing", "c03_nontrivial"},
 		"C04": {"trunc", 24, 110, "crash images of workloads rich in truncations; non-trivial = distinct image with a truncation in flight or acknowledged earlier; plus scripts in which the truncation is interrupted by a failing metadata commit / Create / unlink (before or after its effect) instead of a crash: in the running process, after a kill-restart and after a clean reopen the log is the old or the new one in full", "trunc_images"},
 		"C13": {"mixed", 18, 90, "directory listing compared with committed metadata after every acknowledged call of the golden run and after Open on every crash image, plus online segment-ID rules at every CommitState/Create; non-trivial = distinct image holding a file not in (or lacking a file of) the committed metadata before Open, plus reader-pinning scripts (a reader parked holding the old state while a head / tail / all truncation drops its segment: the files must be gone once DeleteRange returned and the reader finished) and failed-Create scripts (the Create of a delete-all / tail truncation / base-index reset / rotation fails with or without leaving the file behind, the operation is retried in the same process: no file name may be passed to Create twice, the identity rules hold, the retry does not collide, the reopened directory equals the metadata)", "c13_nontrivial"},
@@ -84,6 +84,9 @@ func runCrash(c *evid.Ctx, id string, cfg crashCfg) {
 	}
 	if id == "C04" {
 		c04FailedTruncations(c)
+	}
+	if id == "C02" {
+		c02DirectedChains(c)
 	}
 	if id == "C01" || id == "C03" || id == "C04" || id == "C13" {
 		// power-loss images of the production stack (real fs, real BoltDB) replayed from strace
